@@ -26,7 +26,7 @@ CLAIMED = {
         "garbage-collection points (last-reference drops and gc.collect() inside emits and inside connect() itself), weak arguments and "
         "senders that are alive but falsy, sender classes up to three levels deep, checked per emit interval "
         "against a registry model with must/may/never-call sets, argument order, return value and weakref liveness; one history in ten drives the bundled "
-        "emitters (CheckBox, RadioButton groups, Button, list walkers) through their mutators, keys and mouse presses against the documented emission contract. "
+        "emitters (CheckBox, RadioButton groups, Button incl. the connect / disconnect forms its documentation gives for a callback with user data and for the constructor's on_press, list walkers) through their mutators, keys and mouse presses against the documented emission contract. "
         "Sampling, not proof: a clean batch is evidence that no interleaving of the sampled shapes breaks the property.",
         "Trusts CPython refcount/GC semantics with gc disabled during a run; handlers never raise; liveness of weak "
         "arguments is observed by polling at handler and operation boundaries.",
@@ -61,7 +61,7 @@ CLAIMED["C05"] = (
     "short reads, SIGWINCH between fragments, timer/arrival ties both ways) on all six event loops and the synchronous "
     "get_input path; the real Screen reads a fake tty on a virtual clock. Oracles: no exception, byte accounting, "
     "fragmentation invariance against whole delivery of each actually-flushed group, an implementation-independent token "
-    "table (323 key sequences with their documented names generated from the terminals' conventions rather than read from escape.py, X10/SGR mouse, CPR, UTF-8, double-byte, truncated UTF-8 reported byte by byte), bounded flush. Exhaustive per sampled stream over "
+    "table (323 key sequences with their documented names generated from the terminals' conventions rather than read from escape.py, X10/SGR mouse, CPR, UTF-8, double-byte characters of the EUC and of the Big5/GBK/UHC kind (trail byte in the ASCII range) in six wide encodings, truncated UTF-8 reported byte by byte), bounded flush. Exhaustive per sampled stream over "
     "single-cut schedules; streams themselves are sampled.",
     "Line discipline not modelled; the invariance reference is urwid's own decoder on whole groups (metamorphic), paired "
     "with the independent token table; EAGAIN/EOF on the tty not injected.",
@@ -91,7 +91,7 @@ CLAIMED["C04"] = (
     "display",
     "exploration",
     "The real posix raw Screen draws seeded histories of canvases (generated attribute/charset/text runs incl. wide, combining, "
-    "DEC-special and control characters; palette names, aliases, undefined names, AttrSpec objects; 5 colour depths; 3 output "
+    "DEC-special and control characters; palette names, aliases, undefined names, AttrSpec objects, None with and without an application-registered None entry; 5 colour depths; 3 output "
     "encodings; back_color_erase on/off) on a fake tty, interleaved with clear(), set_terminal_properties and SIGWINCH delivered at "
     "scheduled points including inside the k-th write() of a frame. RefTerm, an independent VT100/xterm model, interprets every "
     "byte; after every frame of the right size every cell (text, resolved attributes, charset), the cursor and the scroll counter "
@@ -127,7 +127,7 @@ CLAIMED["C06"] = (
     "cache",
     "exploration",
     "Two widget trees are built from one generated spec and driven through the same seeded history of render/rows calls on the "
-    "root or any subtree (sizes, focus), public mutators, contents/walker edits, focus changes, key and mouse input, and canvas "
+    "root or any subtree (sizes, focus), public mutators (incl. ListBox.shift_focus and set_focus_valign), contents/walker edits, focus changes, key and mouse input, and canvas "
     "lifetime events (hold a returned canvas, drop one, gc.collect()). One tree lives with CanvasCache as an application's tree "
     "does; on the twin every widget is _invalidate()d before every operation, i.e. it is urwid with the cache emptied first. "
     "Content, cursor, rows(), input results and exceptions must agree at every step, and every held canvas is re-read after every "
@@ -147,8 +147,8 @@ CLAIMED["C20"] = (
     "land between an action and the render that resolves it. At every render the view must be rows p..p+h of the wrapped widget's "
     "full rendering at the child width with 0 <= p <= max(0,total-h) and get_scrollpos() == p; the scrollbar is drawn iff the "
     "content is taller than the view, its parts are contiguous, non-negative and sum to h, the thumb is at the top iff p == 0 and "
-    "never moves up when p does not decrease; a key handled by the wrapped widget does not also scroll; set_scrollpos(k) and an "
-    "unhandled wheel event lead to the documented position. A ListBox under a ScrollBar (absolute and relative protocol) is driven "
+    "never moves up when p does not decrease; a key handled by the wrapped widget does not also scroll; a key the wrapped widget leaves is used exactly when the Scrollable's command map (the shared one, or in a fifth of the sessions one of its own with vi-style keys) binds it to a scroll command; set_scrollpos(k), an "
+    "unhandled wheel event and a single scrolling key lead to the expected position. A ListBox under a ScrollBar (absolute and relative protocol) is driven "
     "too, and 15% of the Scrollable histories run as timed events through the real MainLoop + Screen + event loop with the clauses "
     "evaluated (also on the RefTerm grid) whenever the loop waits. Sampling, not proof.",
     "The slice model uses the wrapped widget's own full rendering (text layout is trusted); views narrower than the scrollbar are "
@@ -166,7 +166,7 @@ CLAIMED["C10"] = (
     "width changes as explicit steps because the view shift and the preferred column are state set by them. After every step: text "
     "and offset equal a reference editor (display-row geometry from a fresh twin through urwid's layout), handled/unhandled result, "
     "offset bounds, cursor drawn on the character at the offset, clicks land on the character displayed by the last render, change/"
-    "postchange signal order and arguments, numeric alphabets and leading-zero trimming; a fifth of the Edit histories use bytes "
+    "postchange signal order and arguments, numeric alphabets (also against non-ASCII characters with the Unicode digit property) and leading-zero trimming; a fifth of the Edit histories use bytes "
     "(UTF-8) captions and texts, where the offset must stay on character boundaries. 10% of the histories run as timed events "
     "through the real MainLoop + Screen + event loop: MainLoop makes the calls, hooks on the Edit hand each one to the same "
     "per-operation comparison, and the terminal's cursor is compared with the Edit's at every wait. Sampling, not proof.",
@@ -181,11 +181,11 @@ CLAIMED["C07"] = (
     "exploration",
     "Seeded histories on ListBox over SimpleListWalker, SimpleFocusListWalker and a minimal custom walker (0-10 flow items: Text of "
     "0/1/many rows, Edit, Button, CheckBox, Divider, Pile, zero-row widgets, items taller than the box): navigation keys, characters, "
-    "button-1 presses and wheel events, set_focus (any coming_from), set_focus_valign, focus_position writes, walker insert/delete/"
-    "replace/clear, resizes 1x1..30x12, with render as an explicit step because focus and alignment requests are deferred until a size "
+    "button-1 presses and wheel events, set_focus (any coming_from), set_focus_valign, focus_position writes (also to positions that do not exist), walker insert/delete/"
+    "replace/clear and the other list methods, lists emptied and refilled in place, resizes 1x1..30x12, with render as an explicit step because focus and alignment requests are deferred until a size "
     "is known and resolved by whichever of render/keypress/mouse_event comes first. At every render: no exception, the rows are a "
     "contiguous slice of the concatenated item renderings followed only by blanks, a row of the focus item (and its cursor row) is "
-    "visible, no blank above the first item, trailing blanks only when scrolled to the top, clicks focus the clicked selectable item, "
+    "visible, get_cursor_coords() reports the cursor drawn, for the two bundled walkers the order the walker protocol yields is the order of the list, no blank above the first item, trailing blanks only when scrolled to the top, clicks focus the clicked selectable item, "
     "keypress returns None or the key. 12% of the histories run as timed events (key / SGR mouse bytes, SIGWINCH, application timers) "
     "through the real MainLoop + Screen + one of the six loops, where batching of events before a redraw is decided by the schedule; "
     "the clauses are then evaluated on the canvas MainLoop drew and on the RefTerm grid whenever the loop waits. Sampling, not proof.",
